@@ -40,14 +40,47 @@ Proof. exact step_conn. Qed.
 Print Assumptions C08_step_view.
 
 (* identifiers returned by open_substream are strictly increasing (hence never reused), also
-   when other services draw from the shared counter in between (EBump), for every history —
-   no environment assumption; usize wrap-around is outside the model *)
+   when other services draw from the shared counter in between (EBump), for every history in
+   which the usize counter does not wrap (nowrap: s_next + draws stays below 2^64 at every step)
+   — no environment assumption; across the wrap see C08_ids_unique_mod_2_64 *)
 Theorem C08_ids_fresh :
   forall tr s,
+  nowrap s tr ->
   StronglySorted N.lt (ret_ids (concat (run s tr))) /\
   Forall (fun i => s_next s <= i) (ret_ids (concat (run s tr))).
 Proof. exact ids_sorted. Qed.
 Print Assumptions C08_ids_fresh.
+
+(* The substream-id counter is a usize: fetch_add wraps modulo 2^64 (ID_MOD), and the model
+   computes it that way. In any history whose inputs can draw at most 2^64 identifiers in total
+   (draws: one per open_substream call, n per EBump n), starting from any counter value, no
+   identifier is returned twice — also across the wrap. *)
+Theorem C08_ids_unique_mod_2_64 :
+  forall tr s,
+  s_next s < ID_MOD -> draws tr <= ID_MOD -> NoDup (ret_ids (concat (run s tr))).
+Proof. exact ids_unique_mod. Qed.
+Print Assumptions C08_ids_unique_mod_2_64.
+
+Theorem C08_id_counter_mod_2_64 :
+  ID_MOD = 2 ^ 64 /\
+  forall s dt e, s_next s < ID_MOD ->
+  exists d, d <= draw_of e /\ s_next (fst (step s dt e)) = (s_next s + d) mod ID_MOD /\
+            (ret_ids (snd (step s dt e)) = [] \/ (ret_ids (snd (step s dt e)) = [s_next s] /\ d = 1)).
+Proof. split; [reflexivity | exact step_draw]. Qed.
+Print Assumptions C08_id_counter_mod_2_64.
+
+(* ChannelClogged: open_substream that finds the primary's command channel full (or is refused
+   earlier) puts nothing in flight, issues no command and returns no identifier — although an
+   identifier has been drawn (C08_id_counter_mod_2_64 with draw_of = 1) and, for a keep-alive
+   protocol, the attempt counted as activity (ka_activity_of) *)
+Theorem C08_channel_clogged :
+  forall s dt p,
+  s_pend (fst (step s dt (EOpenFull p))) = s_pend s /\
+  ret_ids (snd (step s dt (EOpenFull p))) = [] /\
+  (forall c id, ~ In (OCmd c id) (snd (step s dt (EOpenFull p)))) /\
+  (exists r, In (ORet r 0) (snd (step s dt (EOpenFull p))) /\ (r = 1 \/ r = 2 \/ r = 3)).
+Proof. exact open_full_effect. Qed.
+Print Assumptions C08_channel_clogged.
 
 (* an OpenSubstream command is only ever produced by an accepted open_substream(p), carries the
    returned identifier, and goes to the oldest open connection of p (the primary; after the
@@ -67,10 +100,11 @@ Print Assumptions C08_primary_only.
    by the feasibility predicate of the stream theorem) *)
 Theorem C08_answered_at_most_once :
   forall ka T n0 tr,
+  nowrap (init ka T n0) tr ->
   NoDup (ans_ids (concat (run (init ka T n0) tr))) /\
   forall id, In id (ans_ids (concat (run (init ka T n0) tr))) -> n0 <= id.
 Proof.
-  intros ka T n0 tr. destruct (answers_once tr (init ka T n0) (pend_inv_init ka T n0)) as [H1 H2].
+  intros ka T n0 tr NW. destruct (answers_once tr (init ka T n0) (pend_inv_init ka T n0) NW) as [H1 H2].
   split; [exact H1|]. intros id H. destruct (H2 id H) as [[]|L]. exact L.
 Qed.
 Print Assumptions C08_answered_at_most_once.
@@ -78,7 +112,7 @@ Print Assumptions C08_answered_at_most_once.
 (* one step: an answered identifier was in flight before the step and is not afterwards; the set
    in flight only grows by the identifier just returned *)
 Theorem C08_answer_consumes :
-  forall s dt e, pend_inv s -> ans_ok s (fst (step s dt e)) (snd (step s dt e)).
+  forall s dt e, pend_inv s -> nowrap1 s e -> ans_ok s (fst (step s dt e)) (snd (step s dt e)).
 Proof. exact step_ans. Qed.
 Print Assumptions C08_answer_consumes.
 
@@ -106,7 +140,7 @@ Print Assumptions C08_in_flight_until_answered_or_closed.
 
 Theorem C08_open_resolution :
   forall tr s c id,
-  pend_inv s -> In (OCmd c id) (concat (run s tr)) ->
+  pend_inv s -> nowrap s tr -> In (OCmd c id) (concat (run s tr)) ->
   (exists p, pfind id (s_pend (final s tr)) = Some (p, c)) \/
   In id (ans_ids (concat (run s tr))) \/
   exists dt p, In (dt, EClosed p c) tr.
@@ -120,6 +154,7 @@ Print Assumptions C08_open_resolution.
    open has exactly one answer with its own identifier, or its connection was closed; never two. *)
 Theorem C08_open_answered :
   forall tr ka T n0 c id,
+  nowrap (init ka T n0) tr ->
   In (OCmd c id) (concat (run (init ka T n0) tr)) ->
   pfind id (s_pend (final (init ka T n0) tr)) = None ->
   (count_occ N.eq_dec (ans_ids (concat (run (init ka T n0) tr))) id <= 1)%nat /\
@@ -174,6 +209,7 @@ Print Assumptions C08_report_default_capacity.
    once, or ConnectionClosed for its connection was delivered; never twice. *)
 Theorem C08_answer_event_resolves :
   forall tr1 dt a tr2 ka T n0 c id,
+  nowrap (init ka T n0) (tr1 ++ (dt, a) :: tr2) ->
   In (OCmd c id) (concat (run (init ka T n0) tr1)) ->
   (exists m, a = ESubOut id m) \/ a = ESubFail id ->
   pfind id (s_pend (final (init ka T n0) (tr1 ++ (dt, a) :: tr2))) = None.
@@ -182,6 +218,7 @@ Print Assumptions C08_answer_event_resolves.
 
 Theorem C08_open_answered_when_delivered :
   forall tr1 dt a tr2 ka T n0 c id,
+  nowrap (init ka T n0) (tr1 ++ (dt, a) :: tr2) ->
   In (OCmd c id) (concat (run (init ka T n0) tr1)) ->
   (exists m, a = ESubOut id m) \/ a = ESubFail id ->
   let tr := tr1 ++ (dt, a) :: tr2 in
@@ -222,3 +259,11 @@ Example C08_report_nonvacuous :
   map o_got (rrun (rinit 1 1) l) = [[]; []; [IEst 1]; [IFailure 1 7]] /\
   map o_done (rrun (rinit 1 1) l) = [[]; []; [1]; []].
 Proof. vm_compute. repeat split; reflexivity. Qed.
+
+(* non-vacuity of the wrap: the counter starts 2 below 2^64; four opens return 2^64-2, 2^64-1, 0, 1;
+   a clogged open in between draws an identifier without returning one *)
+Example C08_wrap_nonvacuous :
+  let tr := [(0, EEst 0 1); (0, EOpen 0); (0, EOpen 0); (0, EOpenFull 0); (0, EOpen 0)] in
+  ret_ids (concat (run (init true 1000 (ID_MOD - 2)) tr)) = [ID_MOD - 2; ID_MOD - 1; 1] /\
+  s_next (final (init true 1000 (ID_MOD - 2)) tr) = 2.
+Proof. vm_compute. split; reflexivity. Qed.
